@@ -407,9 +407,10 @@ class SEDCube(BaseCube):
         sed.wav = self.wav
         sed.nu = self.nu
         sed.apertures = self.apertures
-        sed.flux = self.val[sed_index, :,:]
+        # (copies: the SED that is handed out must not be a view of the cube)
+        sed.flux = self.val[sed_index, :,:].copy()
         if self.unc is not None:
-            sed.error = self.unc[sed_index, :,:]
+            sed.error = self.unc[sed_index, :,:].copy()
         return sed
 
 
